@@ -350,8 +350,9 @@ def write_evidence(ctx, n_viol, n_known):
         'wall_s': round(time.time() - ctx.t0, 2),
         'violations': int(n_viol),
     }
-    os.makedirs(os.path.join(VERIF, 'evidence'), exist_ok=True)
-    path = os.path.join(VERIF, 'evidence', ctx.prop + '.json')
+    evdir = os.environ.get('VERIF_EVIDENCE_DIR') or os.path.join(VERIF, 'evidence')   # mutant runs write elsewhere
+    os.makedirs(evdir, exist_ok=True)
+    path = os.path.join(evdir, ctx.prop + '.json')
     tmp = path + '.tmp'
     with open(tmp, 'w') as f:
         f.write(json.dumps(ev, indent=1, default=_json_default, sort_keys=False))
@@ -361,7 +362,7 @@ def write_evidence(ctx, n_viol, n_known):
 
 
 def write_replay(prop, v):
-    d = os.path.join(VERIF, 'replays', prop)
+    d = os.path.join(os.environ.get('VERIF_REPLAY_DIR') or os.path.join(VERIF, 'replays'), prop)
     os.makedirs(d, exist_ok=True)
     body = {'property': prop, 'sig': v['sig'], 'msg': v['msg'], 'fn': v['fn'], 'case': v['case'],
             'stage': v.get('stage')}
